@@ -160,8 +160,8 @@ def i_XORI(ins, fmap):
 def i_SLT(ins, fmap):
     dst, rs1, rs2 = ins.operands
     if dst is not zero:
-        _t = rs1 < rs2
-        fmap[dst] = fmap(tst(_t, cst(1, 32), cst(0, 32)))
+        _t = fmap(rs1).signed() < fmap(rs2).signed()
+        fmap[dst] = tst(_t, cst(1, 32), cst(0, 32)).simplify()
 
 
 @__npc
@@ -176,8 +176,8 @@ def i_SLTU(ins, fmap):
 def i_SLTI(ins, fmap):
     dst, rs1, rs2 = ins.operands
     if dst is not zero:
-        _t = rs1 < rs2
-        fmap[dst] = fmap(tst(_t, cst(1, 32), cst(0, 32)))
+        _t = fmap(rs1).signed() < fmap(rs2).signed()
+        fmap[dst] = tst(_t, cst(1, 32), cst(0, 32)).simplify()
 
 
 @__npc
@@ -273,7 +273,8 @@ def i_BNE(ins, fmap):
 
 def i_BLT(ins, fmap):
     r1, r2, imm = ins.operands
-    fmap[pc] = fmap(tst(r1 < r2, pc + imm, pc + ins.length))
+    _t = fmap(r1).signed() < fmap(r2).signed()
+    fmap[pc] = tst(_t, fmap(pc + imm), fmap(pc + ins.length)).simplify()
 
 
 def i_BLTU(ins, fmap):
@@ -283,7 +284,8 @@ def i_BLTU(ins, fmap):
 
 def i_BGE(ins, fmap):
     r1, r2, imm = ins.operands
-    fmap[pc] = fmap(tst(r1 >= r2, pc + imm, pc + ins.length))
+    _t = fmap(r1).signed() >= fmap(r2).signed()
+    fmap[pc] = tst(_t, fmap(pc + imm), fmap(pc + ins.length)).simplify()
 
 
 def i_BGEU(ins, fmap):
